@@ -14,7 +14,7 @@
 (* cmd/arch.go reads them, the filter when BuildMapTree starts. The Machine's outputs   *)
 (* are judged by the same Reference (ArchRef!Diff) that judges the real code in         *)
 (* Arch_Trace.                                                                          *)
-EXTENDS ArchRef, Integers, SequencesExt, Json
+EXTENDS ArchRef, Integers, SequencesExt, FiniteSetsExt, Json
 
 CONSTANTS Universe,      \* Seq([pkg : Seq(String), name : String]): candidate types
           MinTypes, MaxTypes,   \* size of the model
@@ -49,6 +49,8 @@ X(p, n) == [pkg |-> p, node |-> n]
 \* analysis-centred: two packages, an entry class, one type of the unnamed package
 U_analysis == <<T(<<"a">>, "A"), T(<<"a">>, "Main"), T(<<"b">>, "B"), T(<<>>, "C")>>
 \* merge-centred: package names whose concatenations collide ("a"+"bb" = "ab"+"b")
+\* two types out of three, for the runs with two relation items per class
+U_pair     == <<T(<<"a">>, "A"), T(<<"a">>, "Main"), T(<<"b">>, "B")>>
 U_collide  == <<T(<<"a">>, "A"), T(<<"ab">>, "A"), T(<<"b">>, "B"), T(<<"bb">>, "B")>>
 \* nested packages, top-level collisions under merge-package, Main, the unnamed package
 U_nested   == <<T(<<"a">>, "A"), T(<<"a", "b">>, "B"), T(<<"ab">>, "A"), T(<<"b", "a">>, "B"),
@@ -65,7 +67,7 @@ TargetOf(t) == X(PkgStr(t), t.name)
 Targets == {TargetOf(Universe[i]) : i \in DOMAIN Universe} \cup Externals
 Items == Kinds \X Targets
 \* sets of at most MaxRel relation items, at most one `extends`
-RelChoices == {s \in SUBSET Items : Cardinality(s) <= MaxRel /\ Cardinality({x \in s : x[1] = "ext"}) <= 1}
+RelChoices == {s \in UNION {kSubset(n, Items) : n \in 0..MaxRel} : Cardinality({x \in s : x[1] = "ext"}) <= 1}
 
 Of(s, k) == SetToSeq({x[2] : x \in {y \in s : y[1] = k}})
 ExtOf(s) == IF \E x \in s : x[1] = "ext" THEN TargetId((CHOOSE x \in s : x[1] = "ext")[2]) ELSE ""
